@@ -956,7 +956,12 @@ def index_at(p, label, idx):
     operation, so the index is pushed down to the leaves: free occurrences x[label] become at(label -> x, idx);
     occurrences bound by a reduction / gather over the same label are untouched."""
     idx = _coerce(idx)
+    back_ = idx - count(label)
+    if back_.is_const() and back_.const_value().denominator == 1 and back_.const_value() < 0:
+        idx = back_                            # x[len(x) - c] == x[-c]: one spelling for positions counted from the end
     run = Poly.atom(('sym', 'idx:' + str(label), (label,)))
+    # the value of the running position itself: a position counted from the end is len + idx
+    pos_idx = count(label) + idx if idx.is_const() and idx.const_value().denominator == 1 and idx.const_value() < 0 else idx
     if idx == Poly.atom(('fn', 'arange', ('L', label))):
         return p                               # x[arange(n)] == x
     ext_ = _extreme_of_sorted(p, label, idx)
@@ -981,7 +986,7 @@ def index_at(p, label, idx):
         if idx == run:
             return Poly.atom(a)
         if a[0] == 'fn' and a[1] == 'arange' and len(a) == 3 and a[2] == ('L', label):
-            return idx                         # arange(n)[i] == i
+            return pos_idx                     # arange(n)[i] == i
         if a[0] == 'fn' and a[1] == 'argsort' and len(a) == 4 and a[2] == ('L', label) and a[3][0] == 'B' and idx.is_monomial():
             # argsort(K)[rank(K, n)] is the position in K of the key that equals n (n is taken to be one of the keys)
             (mx_, cx_), = idx.t.items()
@@ -996,6 +1001,11 @@ def index_at(p, label, idx):
             lo = Poly() if a[4] == ('C', None) else Poly.from_key(a[4][1])
             step = Poly.const(1) if a[6] == ('C', None) else Poly.from_key(a[6][1])
             return index_at(Poly.from_key(a[3][2]), a[3][1], lo + idx * step)
+        if a[0] == 'fn' and a[1] == 'slice' and len(a) == 7 and a[2] == ('L', label) and a[3][0] == 'B' and a[3][1] != label and a[6] == ('C', None) \
+                and a[4][0] == 'P' and Poly.from_key(a[4][1]).is_const() and Poly.from_key(a[4][1]).const_value() < 0 and Poly.from_key(a[4][1]).const_value().denominator == 1 \
+                and idx.is_const() and idx.const_value().denominator == 1 and idx.const_value() >= 0 and (Poly.from_key(a[4][1]) + idx).const_value() < 0:
+            # element i of x[-c:] (a start counted from the end, step 1) is x[-c + i] as long as that is still counted from the end
+            return index_at(Poly.from_key(a[3][2]), a[3][1], Poly.from_key(a[4][1]) + idx)
         return Poly.atom(('fn', 'at', ('B', label, Poly.atom(a).key()), ('P', idx.key())))
 
     def go_atom(a):
@@ -1005,7 +1015,7 @@ def index_at(p, label, idx):
         if label not in atom_labels(a):
             r = Poly.atom(a)
         elif kind == 'sym':
-            r = idx if a[1] == 'idx:' + str(label) else leaf(a)
+            r = pos_idx if a[1] == 'idx:' + str(label) else leaf(a)
         elif kind == 'sum':
             r = sum_over(go(Poly.from_key(a[2])), a[1])          # a[1] != label here (label is free in a)
         elif kind == 'pow':
